@@ -32,6 +32,10 @@ type SeqResp struct {
 	Txs  [][]byte
 	Time time.Time
 	ID   int // release order id
+	// Err, if set, is the error a SeqError response returns (default: an opaque errors.New value). Sequencing layers
+	// bound their own backend calls with timeouts and wrap what they get: the error may carry the identity of
+	// context.DeadlineExceeded / context.Canceled although the node's own context is alive.
+	Err error
 }
 
 // SeqCall records one GetNextBatch call and what it returned.
@@ -119,6 +123,9 @@ func (s *SeqDouble) GetNextBatch(ctx context.Context, req coresequencer.GetNextB
 	case SeqNilBatch:
 		return &coresequencer.GetNextBatchResponse{Batch: nil, Timestamp: r.Time}, nil
 	default:
+		if r.Err != nil {
+			return nil, r.Err
+		}
 		return nil, errors.New("verif: scripted sequencing error")
 	}
 }
